@@ -13,6 +13,9 @@
             gen -1 none | 0 NP1 | 1 NP2.1 | 2 NP2.4 | 3 NPultra; enc 0 shank map | 1 geometry map
             | 2 no map; split -1 or the NP2.4_shank value
      output 1 :: raw_channel_order   or [0] (outside the model's domain)
+   api 5 (constructor without meta data): input [5; nbytes] -> [1; nc; ns; nsync] or [0]
+   api 10 / 11 / 12: as 0 / 1 / 2 on a reader that is NOT open: [1; 4] (IOError) wherever the call
+     reaches read
    api 4 (volts-per-bit vector of the reader, through C09's model of the meta file):
      input  4 :: code points of the .meta text
      output 1 :: rm :: rs :: maxint :: n :: conv_0 .. (range = rm / 10^rs; conv: CG (m,s) -> [0;m;s]
@@ -21,7 +24,7 @@
            gain index for each cell, row-major). *)
 From Coq Require Import ZArith List Bool.
 From IBL.lib Require Import PyInt RunLib.
-From IBL.C01 Require Import Model Geometry Gains.
+From IBL.C01 Require Import Model Geometry Gains State.
 Require IBL.C08.Run IBL.C09.Run.
 Import ListNotations.
 Open Scope Z_scope.
@@ -88,9 +91,15 @@ Definition run_gains (text : list Z) : list Z :=
 
 Definition run (inp : list Z) : list Z :=
   match inp with
+  | [5; nbytes] => match guess_shape nbytes with
+                   | Some (nc, ns, nsync) => [1; nc; ns; nsync]
+                   | None => [0]
+                   end
   | 3 :: r => run_order r
   | 4 :: r => run_gains r
-  | api :: cb :: nb :: r0 =>
+  | api0 :: cb :: nb :: r0 =>
+      let opened := api0 <? 10 in
+      let api := if opened then api0 else api0 - 10 in
       let '(bounds, r1) := take_z nb r0 in
       match r1 with
       | ns :: nc :: r2 =>
@@ -101,9 +110,10 @@ Definition run (inp : list Z) : list Z :=
           if api =? 0 then
             match dec_sels 2 r3 with
             | Some [a; b] =>
-                match read sym_cal cbin raw nc order gain a b with
-                | Ok r => enc_result r
-                | Err e => [1; enc_err e]
+                match reader_read sym_cal opened cbin raw nc order gain a b with
+                | Ran (Ok r) => enc_result r
+                | Ran (Err e) => [1; enc_err e]
+                | NotOpen => [1; 4]
                 end
             | _ => [-998]
             end
@@ -118,10 +128,11 @@ Definition run (inp : list Z) : list Z :=
                         end in
             match it with
             | Some it =>
-                match getitem sym_cal cbin raw nc order gain it with
-                | Ok (Some r) => enc_result r
-                | Ok None => [2]
-                | Err e => [1; enc_err e]
+                match reader_getitem sym_cal opened cbin raw nc order gain it with
+                | Ran (Ok (Some r)) => enc_result r
+                | Ran (Ok None) => [2]
+                | Ran (Err e) => [1; enc_err e]
+                | NotOpen => [1; 4]
                 end
             | None => [-997]
             end
